@@ -118,7 +118,7 @@ func init() {
 	core.Register(&core.Prop{
 		ID:    "C03",
 		Level: "model_checking",
-		Rule: "bounded-exhaustive scenarios as C01 (all combinations of <=D operators from the full damage menu around several default sets, 5 content classes, core size grid, large sets); " +
+		Rule: "(later rounds added: the decoder protocol fault search on one Decoder object; leftovers of another set under covering volume names x listing order; a prior call on a copy with a bad-hash packet; contents with zero tails of two bytes and with checksum-field boundary values) bounded-exhaustive scenarios as C01 (all combinations of <=D operators from the full damage menu around several default sets, 5 content classes, core size grid, large sets); " +
 			"the menu contains every operator that leaves all slices findable while files are wrong (insert/cut at every offset, swap, copy, append, zero-append, truncate trailing zeros). " +
 			"plus a set above 16 KiB verified right after another generation of itself (same file ids and set id, other content beyond 16 KiB) in the same process; plus damaged recovery files: every packet of every recovery file x 6 kinds of header / body damage (length field extended over the next packet or the rest of the file, shortened; body, hash, magic byte), alone and with every single data damage - there Verify may refuse with an error, but a verdict must count exactly the recovery blocks a magic-resynchronising reference scanner finds intact. " +
 			"Oracle: clean => all files present and identical; usable <= slices whose content occurs (brute force); unusable <= slices of damaged files; sums; parity count = distinct intact blocks beside index; RepairPossible consistent. non-trivial = scenario with >=1 damaged file",
